@@ -344,6 +344,31 @@ func genC15(w *bufio.Writer, r *rng, thorough bool) {
 	for _, s := range specialScalars() {
 		vals = append(vals, new(big.Int).Mod(s, rMod))
 	}
+	// single-bit neighbourhoods of the constants any limb-inspecting shortcut would compare with: the
+	// MONTGOMERY limbs of 0, 1, 2, -1, 1/2, R (i.e. the raw patterns 0, R mod r, ..., and the modulus limbs)
+	// with one bit of one limb flipped (bits 0..3, 31, 32, 62, 63) — an `IsOne()` / `IsZero()`-style test
+	// written with the wrong operator precedence, mask or limb order accepts exactly such values
+	{
+		rinv := new(big.Int).ModInverse(two256, rMod)
+		var pats []*big.Int
+		for _, reg := range []*big.Int{big.NewInt(0), big.NewInt(1), big.NewInt(2), sub(rMod, 1), new(big.Int).Rsh(add(rMod, 1), 1), new(big.Int).Mod(two256, rMod)} {
+			m := new(big.Int).Mul(reg, two256)
+			pats = append(pats, m.Mod(m, rMod)) // its Montgomery limbs
+		}
+		pats = append(pats, sub(rMod, 1), big.NewInt(1))
+		for _, m := range pats {
+			for limb := uint(0); limb < 4; limb++ {
+				for _, bit := range []uint{0, 1, 2, 3, 31, 32, 62, 63} {
+					raw := new(big.Int).Xor(m, pow2(64*limb+bit))
+					if raw.Cmp(rMod) >= 0 {
+						continue
+					}
+					v := new(big.Int).Mul(raw, rinv)
+					vals = append(vals, v.Mod(v, rMod))
+				}
+			}
+		}
+	}
 	for _, v := range vals {
 		emit(w, "fr.un %s", be32(v))
 	}
